@@ -92,8 +92,43 @@ impl<'tcx> Runner<'tcx> {
     }
 
     /// abstract value for one parameter of a root
+    /// option `bytes.argN=pos:lo..hi;pos:lo..hi` pins individual bytes of a byte array / slice input
+    fn apply_byte_overrides(&mut self, st: &mut State, job: &Job, idx: usize, v: Val) -> Val {
+        let Some(spec) = job.opts.get(&format!("bytes.arg{}", idx)) else { return v };
+        let mut ov: Vec<(u64, i128, i128)> = Vec::new();
+        for part in spec.split(';') {
+            if let Some((p, r)) = part.split_once(':') {
+                if let (Ok(p), Some((lo, hi))) = (p.parse::<u64>(), parse_range(r)) {
+                    ov.push((p, lo, hi));
+                }
+            }
+        }
+        let patch = |a: &ArrV| -> ArrV {
+            let mut n = a.clone();
+            for (p, lo, hi) in &ov {
+                if *p < n.len {
+                    let t = n.get(*p).taint_of();
+                    n.set(*p, Val::Int(IntV::new(*lo, *hi, ITy::U8).with_taint(t)));
+                }
+            }
+            n
+        };
+        match &v {
+            Val::Arr(a) => Val::Arr(Rc::new(patch(a))),
+            Val::Ref(p) | Val::Slice { base: p, .. } => {
+                if let Val::Arr(a) = st.read(p) {
+                    let n = patch(&a);
+                    st.write(p, Val::Arr(Rc::new(n)));
+                }
+                v
+            }
+            _ => v,
+        }
+    }
+
     fn input_for(&mut self, st: &mut State, job: &Job, idx: usize, name: &str, t: Ty<'tcx>, module: &str) -> Val {
         let v = self.input_for0(st, job, idx, name, t, module);
+        let v = self.apply_byte_overrides(st, job, idx, v);
         if job.opts.contains_key(&format!("taint.arg{}", idx)) && !matches!(v, Val::Ref(_) | Val::Slice { .. }) {
             return v.taint_all(T_SK);
         }
